@@ -27,7 +27,7 @@ func init() { core.Register(c16{}) }
 func (c16) ID() string    { return "C16" }
 func (c16) Level() string { return "fault_enumeration" }
 func (c16) Rule() string {
-	return "signed packages (stored and gzip members; roles origin/maint/archive; three generated keys) are loaded and checked with CheckDebsig(keyring, role). Faults: every byte of the debian-binary, control and data members and of the _gpg<role> member x {xor 0x01, xor 0xff}; a decoy control.tar / control.tar.gz / control.x / data.tar / data.tar.gz / same-name duplicate with attacker content at every member position, each loaded 40 times; asking for an absent role; unrelated, empty and mixed keyrings. Oracle: an independent verification by the harness over the archive's own debian-binary, the single control.* and the single data.* member (OpenPGP detached signature against the same keyring): library success requires independent success and the same signer key; any flipped byte in a signed member, any decoy, an absent role or a keyring without the signer must make Load or CheckDebsig fail; the untampered package must verify. A range-logging ReaderAt checks that every member read while loading is also read while verifying. Non-trivial = every fault case; distinct by hash of the archive bytes + role + keyring."
+	return "signed packages (stored and gzip members, and - for the Load -> CheckDebsig -> read-the-payload sequence repeated 8..1000 times on 0.3-0.7 MB payloads - all six encodings; roles origin/maint/archive; three generated keys) are loaded and checked with CheckDebsig(keyring, role). Faults: every byte of the debian-binary, control and data members and of the _gpg<role> member x {xor 0x01, xor 0xff}; a decoy control.tar / control.tar.gz / control.x / data.tar / data.tar.gz / same-name duplicate with attacker content at every member position, each loaded 40 times; asking for an absent role; unrelated, empty and mixed keyrings. Oracle: an independent verification by the harness over the archive's own debian-binary, the single control.* and the single data.* member (OpenPGP detached signature against the same keyring): library success requires independent success and the same signer key; any flipped byte in a signed member, any decoy, an absent role or a keyring without the signer must make Load or CheckDebsig fail; the untampered package must verify. A range-logging ReaderAt checks that every member read while loading is also read while verifying. Non-trivial = every fault case; distinct by hash of the archive bytes + role + keyring."
 }
 func (c16) Assumptions() []string {
 	return []string{"golang.org/x/crypto/openpgp signature primitives (the library's use of them is what is checked)", "flips inside the signature packet are judged differentially: OpenPGP itself tolerates some of them"}
@@ -38,11 +38,12 @@ func (c16) Batches(tier string, seed uint64) []core.Batch {
 	b = append(b, spread("flip", 16, tierN(tier, 2, 12))...) // packages; each flip batch covers a 1/16 stripe of the bytes
 	b = append(b, spread("decoy", 4, tierN(tier, 40, 200))...)
 	b = append(b, spread("matrix", 2, tierN(tier, 60, 300))...)
+	b = append(b, spread("codec", 6, tierN(tier, 2, 6))...)
 	return b
 }
 
 func (c16) Mandatory(tier string) []string {
-	return []string{"flip:debian-binary", "flip:control", "flip:data", "flip:signature", "flip:lib-rejected", "untampered-verified", "reader:eof-with-last-bytes", "decoy:control", "decoy:data", "decoy:same-name",
+	return []string{"flip:debian-binary", "flip:control", "flip:data", "flip:signature", "flip:lib-rejected", "untampered-verified", "reader:eof-with-last-bytes", "codec:data-stored", "codec:data-gz", "codec:data-xz", "codec:data-bz2", "codec:data-lzma", "codec:data-zst", "decoy:control", "decoy:data", "decoy:same-name",
 		"decoy:before-genuine", "decoy:after-genuine", "role:absent", "decoy:near-miss-name", "exposed-content-is-signed-content", "sequence:good-bad-empty-absent-good", "keyring:unrelated", "keyring:empty", "keyring:signer+others", "codec:stored", "codec:gz",
 		"role:origin", "role:maint", "role:archive"}
 }
@@ -54,24 +55,43 @@ type c16Case struct {
 	Role    string           `json:"role"`
 	Fault   string           `json:"fault"`
 	Repeat  int              `json:"repeat"`
+	// codec batch: the uncompressed tars behind control.* / data.* (any of the six encodings)
+	CtlTar  []byte `json:"ctltar,omitempty"`
+	DataTar []byte `json:"datatar,omitempty"`
 }
 
 func c16Bits(tier string) int { return tierN(tier, 1024, 2048) }
 
 // signedPackage builds a package signed by keys[signer] for role.
 func signedPackage(r *core.Rand, tier, role string, signer int, gz bool) []model.ArMember {
-	d, _ := genDebControl(r, nil)
 	ext := ""
 	if gz {
 		ext = "gz"
 	}
-	m := debModel{ControlText: d.sb.String(), ControlExt: ext, DataExt: ext, Binary: "2.0\n"}
+	ms, _, _ := signedPackageX(r, tier, role, signer, ext, ext, 0)
+	return ms
+}
+
+// signedPackageX: control/data members in the given encodings; payload > 0 asks for that many bytes of
+// incompressible payload in several files (so that a decompressor that reads ahead is still mid-stream
+// when the signature is checked). Also returns the uncompressed control and data tars.
+func signedPackageX(r *core.Rand, tier, role string, signer int, cext, dext string, payload int) ([]model.ArMember, []byte, []byte) {
+	d, _ := genDebControl(r, nil)
+	m := debModel{ControlText: d.sb.String(), ControlExt: cext, DataExt: dext, Binary: "2.0\n"}
 	if r.Bool() { // deb(5) allows further lines after the format version; they are signed too
 		m.Binary = "2.0\nreserved for future use " + r.Str("abcdef", 6) + "\n"
 	}
 	m.ControlFiles = []tarEnt{{Name: "./control", Type: '0', Data: []byte(m.ControlText), Mode: 0o644}}
 	m.DataFiles = []tarEnt{{Name: "./usr/", Type: '5', Mode: 0o755}, {Name: "./usr/f", Type: '0', Data: r.Bytes(r.Range(1, 600)), Mode: 0o644}}
-	ms, _ := m.members()
+	for k := 0; payload > 0; k++ {
+		n := min(payload, r.Range(40000, 120000))
+		m.DataFiles = append(m.DataFiles, tarEnt{Name: fmt.Sprintf("./usr/big%d", k), Type: '0', Data: r.Bytes(n), Mode: 0o644})
+		payload -= n
+	}
+	ms, err := m.members()
+	if err != nil {
+		return nil, nil, nil
+	}
 	var signed bytes.Buffer
 	for _, x := range ms[:3] {
 		signed.Write(x.Data)
@@ -81,7 +101,7 @@ func signedPackage(r *core.Rand, tier, role string, signer int, gz bool) []model
 	if err := openpgp.DetachSign(&sig, keys[signer], bytes.NewReader(signed.Bytes()), &packet.Config{DefaultHash: crypto.SHA256}); err != nil {
 		panic(err)
 	}
-	return append(ms, model.ArMember{Name: "_gpg" + role, Timestamp: 1700000000, Mode: "100644", Data: sig.Bytes()})
+	return append(ms, model.ArMember{Name: "_gpg" + role, Timestamp: 1700000000, Mode: "100644", Data: sig.Bytes()}), writeTar(m.ControlFiles), writeTar(m.DataFiles)
 }
 
 // indepVerify: the harness's own reading of "the signature covers the three members".
@@ -193,7 +213,7 @@ func (p c16) run(c *core.C, cs c16Case) {
 		}
 		if libOK {
 			// the verified members must be the ones whose content the loader exposed
-			if why := exposedDiffers(d, cs.Members); why != "" {
+			if why := exposedDiffers(d, cs.Members, cs.CtlTar, cs.DataTar); why != "" {
 				c.Failf("Load and CheckDebsig(%s) both succeeded (run %d of %d) but the loader exposed content that is not the signed members': %s; fault: %s; members: %s",
 					cs.Role, rep+1, reps, why, cs.Fault, memberNames(cs.Members))
 				d.Close()
@@ -268,7 +288,7 @@ func absentRoles(role string) []string {
 
 // exposedDiffers compares what the loader exposed (control paragraph, data
 // listing, extensions) with the archive's single control.* / data.* member.
-func exposedDiffers(d *deb.Deb, members []model.ArMember) string {
+func exposedDiffers(d *deb.Deb, members []model.ArMember, ctlTar, dataTar []byte) string {
 	var ctl, dat *model.ArMember
 	for i := range members {
 		switch {
@@ -281,8 +301,14 @@ func exposedDiffers(d *deb.Deb, members []model.ArMember) string {
 	if ctl == nil || dat == nil {
 		return ""
 	}
-	open := func(m *model.ArMember) *tar.Reader {
+	open := func(m *model.ArMember, plain []byte) *tar.Reader {
+		if plain != nil {
+			return tar.NewReader(bytes.NewReader(plain))
+		}
 		var rd io.Reader = bytes.NewReader(m.Data)
+		if !strings.HasSuffix(m.Name, ".gz") && !strings.HasSuffix(m.Name, ".tar") {
+			return nil
+		}
 		if strings.HasSuffix(m.Name, ".gz") {
 			g, err := gzip.NewReader(rd)
 			if err != nil {
@@ -295,7 +321,7 @@ func exposedDiffers(d *deb.Deb, members []model.ArMember) string {
 	if strings.TrimPrefix(d.ControlExt, ".") != strings.TrimPrefix(ctl.Name, "control.") || strings.TrimPrefix(d.DataExt, ".") != strings.TrimPrefix(dat.Name, "data.") {
 		return fmt.Sprintf("ControlExt/DataExt %q/%q do not name the signed members %s/%s", d.ControlExt, d.DataExt, ctl.Name, dat.Name)
 	}
-	if tr := open(ctl); tr != nil {
+	if tr := open(ctl, ctlTar); tr != nil {
 		for {
 			h, err := tr.Next()
 			if err != nil {
@@ -313,7 +339,7 @@ func exposedDiffers(d *deb.Deb, members []model.ArMember) string {
 			}
 		}
 	}
-	if tr := open(dat); tr != nil && d.Data != nil {
+	if tr := open(dat, dataTar); tr != nil && d.Data != nil {
 		want, err1 := listTar(tr)
 		got, err2 := listTar(d.Data)
 		if err1 == nil && (err2 != nil || fmt.Sprint(got) != fmt.Sprint(want)) {
@@ -413,6 +439,28 @@ func (p c16) RunBatch(t *core.T, b core.Batch) {
 				fault, tag = "none", "decoy:near-miss-name"
 			}
 			p.emit(t, c16Case{Members: mm, Keyring: kr, Role: role, Fault: fault, Repeat: 40}, tag, where)
+		}
+	case "codec":
+		// Load -> CheckDebsig -> read the payload, for members in every encoding, many times over: a
+		// decompressor that reads ahead (zstd does, from its own goroutine) must not be disturbed by the
+		// verification reading the same member, and vice versa.
+		r := t.Rand("codec", fmt.Sprint(b.Arg))
+		dext := debCodecs[b.Arg%6]
+		for i := 0; i < b.N; i++ {
+			cext := debCodecs[(b.Arg+i*5+i/6)%6]
+			role := c16Roles[i%3]
+			signer := r.Intn(2)
+			members, ctlTar, dataTar := signedPackageX(r, t.Tier, role, signer, cext, dext, r.Range(300000, 700000))
+			reps := tierN(t.Tier, 8, 40)
+			if cext == "zst" || dext == "zst" { // the decoder that reads ahead from a goroutine of its own
+				reps = tierN(t.Tier, 300, 1000)
+			}
+			if members == nil {
+				t.Cover("~producer-failed")
+				continue
+			}
+			p.emit(t, c16Case{Members: members, Keyring: serializeKeyring([]*openpgp.Entity{keys[signer]}), Role: role, Fault: "none", Repeat: reps, CtlTar: ctlTar, DataTar: dataTar},
+				"codec:data-"+codecName(dext), "codec:control-"+codecName(cext))
 		}
 	case "matrix":
 		r := t.Rand("matrix", fmt.Sprint(b.Arg))
